@@ -89,6 +89,7 @@ var trTargets = []trTarget{
 	{Pkg: evm + "app/antedl/duallane", Recv: "DLDeductFeeDecorator", Name: "AnteHandle", EraseObj: true},
 	{Pkg: evm + "x/evm/keeper", Recv: "Keeper", Name: "IsEmptyAccount"},
 	{Pkg: evm + "x/cpc/keeper", Recv: "erc20CustomPrecompiledContractRwTransferFrom", Name: "transfer"},
+	{Pkg: evm + "x/feemarket/types", Recv: "Params", Name: "Validate"},
 	{Pkg: evm + "indexer", Name: "TxIndexKey"},
 	{Pkg: evm + "indexer", Name: "parseBlockNumberFromKey"},
 	{Pkg: evm + "app/antedl/evmlane", Recv: "ELValidateBasicEoaDecorator", Name: "AnteHandle", EraseObj: true},
